@@ -7,6 +7,13 @@ From Coq Require Import ZArith NArith List Bool.
 Import ListNotations.
 From Cffi Require Import C27.Model C27.Proofs.
 
+(* Scope: the model is the backend's single, process-global unique_cache; the clause "any number of
+   FFI objects, type strings, generated modules" adds only front ends that all end in the same
+   new_*_type calls (cffi/model.py global_cache, realize_c_type): that those front ends preserve
+   canonicity is decided by the correspondence run only (ffi-level histories over several in-line
+   and out-of-line FFI objects, partition of live handles by `is` vs by description).
+   Threads / the free-threaded build are out of scope. *)
+
 (* two live non-aggregate types are the same object iff they have the same description
    (same shape — kind, primitive / length / ellipsis+abi — and the same child objects);
    "only if" is trivial (an object has one description), "if" is this theorem *)
